@@ -121,7 +121,14 @@ fn main() {
         });
     }
 
-    let (level, rule, exhaustive) = f(&mut ctx);
+    let (level, rule, exhaustive) = match ivh::ctx::guarded(|| f(&mut ctx)) {
+        Ok(x) => x,
+        Err(pn) => {
+            // an unguarded call panicked (in the harness or in the library): never a silent crash
+            ctx.inconclusive(format!("the check itself panicked: {pn}"));
+            ("exploration", "run aborted by a panic outside the monitors".to_string(), false)
+        },
+    };
     if let Some(sig) = &replay_sig {
         let again = ctx.part.violations.iter().any(|v| &v.signature == sig);
         println!("[replay] recorded signature {} {}", sig, if again { "REPRODUCED" } else { "did not reproduce on the current tree" });
